@@ -1,13 +1,13 @@
 (* Driver for the real-run part of C05 on the identity stages that cannot be scheduled: SyncIter (async source, sync
    consumer), AsyncIter (sync source, async consumer) and AsyncBuffer run for real; what the consumer received and how
    the iteration ended is compared with the result of Model/Buffer.v (an identity stage with a hand-off queue, early stop
-   and failure propagation) under a fair schedule. With three or more slots the model never deadlocks
-   (C05_buffer3_no_deadlock) and its result does not depend on the schedule. *)
+   and failure propagation) under a fair schedule. The model never deadlocks (C05_buffer_no_deadlock) and its result
+   does not depend on the schedule. *)
 From MpV Require Export Model.Buffer.
 From MpV Require Import Lib.Conc Driver.DriverBuffer.
 Open Scope Z_scope.
 
-(* slots (>= 3), source, stop_after, received, outcome code *)
+(* slots, source, stop_after, received, outcome code *)
 Definition case := (nat * list src_item * option nat * list Z * Z)%type.
 
 Definition rounds (k : nat) : list label := flat_map (fun _ => [C; W]) (seq 0 k).
@@ -21,7 +21,7 @@ Fixpoint zlist_eqb (a b : list Z) : bool :=
 
 Definition check_case (c : case) : nat :=
   let '(ms, sr, sa, rcv, oc) := c in
-  let g := {| maxsize := ms; src := sr; stop_after := sa |} in
+  let g := {| maxsize := ms; src := sr; stop_after := sa; drain_join := true |} in
   let s := run step g (init g) (rounds (20 * (length sr + 4))) in
   if negb (final s) then 9%nat
   else if negb (zlist_eqb (received s) rcv) then 1%nat
